@@ -441,7 +441,23 @@ def export_to_tarfile(jobs, tarfile, path=None):
         Generator that maps the source directory paths to the target directory paths.
 
     """
-    return _export_jobs(jobs=jobs, path=path, copytree=tarfile.add)
+
+    def copytree_to_tar(src, dst):
+        """Add a directory tree to the tar archive.
+
+        Parameters
+        ----------
+        src : str
+            Source path.
+        dst : str
+            Destination path.
+
+        """
+        # Member names are not normalized by the tarfile module: a job exported
+        # to 'a//b' or 'a/./b' would not be found below 'a/b' on import.
+        tarfile.add(src, arcname=os.path.normpath(dst) if dst else dst)
+
+    return _export_jobs(jobs=jobs, path=path, copytree=copytree_to_tar)
 
 
 def export_to_zipfile(jobs, zipfile, path=None):
